@@ -187,7 +187,7 @@ Proof. vm_compute. reflexivity. Qed.
 
 (* the specification is not trivially true: it rejects the old configuration answering a request
    started after the reload returned, a transport error at a served address, an answer from a
-   configuration whose load failed, a reload result other than the configuration's, a socket
+   configuration whose load failed (after, during or across the failed reload), a reload result other than the configuration's, a socket
    that disappeared or was replaced *)
 Example C07_spec_rejects :
   spec_trace [0] [ECall [0] 0; ERet 0; EStart 0 0 0; EEnd 0 (Some (0, 0, true))] = false /\
@@ -196,6 +196,9 @@ Example C07_spec_rejects :
   spec_trace [0] [EStart 0 0 0; EEnd 0 (Some (0, 1, true))] = false /\
   spec_trace [0] [EStart 0 0 0; EEnd 0 (Some (0, 0, false))] = false /\
   spec_trace [0] [ECall [0] 0; ERet 1] = false /\
+  spec_trace [0] [ECall [0] 1; EStart 0 0 0; EEnd 0 (Some (1, 0, true)); ERet 1] = false /\
+  spec_trace [0] [ECall [0] 1; EStart 0 0 0; ERet 1; EEnd 0 (Some (1, 0, true))] = false /\
+  spec_trace [0] [ECall [0] 1; EStart 0 0 0; ERet 1; EEnd 0 (Some (0, 0, true))] = true /\
   spec_trace [0] [EObs 0 true 0; ECall [0] 0; EObs 0 false 0; ERet 0] = false /\
   spec_trace [0] [EObs 0 true 0; ECall [0] 0; ERet 0; EObs 0 true 1] = false.
 Proof. vm_compute. repeat split; reflexivity. Qed.
